@@ -250,6 +250,20 @@ func c14Check(c *harness.Ctx) {
 				if !run(c14Case{LocalAS: 65001, Hold: h, RouterID: 0x0a000001, Inbound: inbound, Prev: prev}) {
 					return
 				}
+				// ... with plugin capability lists (the plugin hands out the same slice on every call),
+				// also ones containing the 4-octet-AS capability that corebgp filters out
+				for _, l := range small {
+					if len(l) == 0 || h != 90 {
+						continue
+					}
+					with65 := append([]c14Cap{{65, "0000fde9"}}, l...)
+					mid65 := append(append([]c14Cap{}, l...), c14Cap{65, "0000fde9"}, c14Cap{1, "00010001"})
+					for _, caps := range [][]c14Cap{l, with65, mid65} {
+						if !run(c14Case{LocalAS: 65001, Hold: h, RouterID: 0x0a000001, Inbound: inbound, Prev: prev, Caps: caps}) {
+							return
+						}
+					}
+				}
 			}
 		}
 	}
